@@ -640,7 +640,7 @@ def halfwidth_case(ctx, am, i):
     b = np.asarray(info['b'], float)
     bn = float(np.linalg.norm(b))
     Kb2 = float(b @ info['K'] @ b)
-    zs_b = rng.uniform(1.0, 1.5) if ctx.quick else rng.uniform(1.0, 2.5)
+    zs_b = rng.uniform(1.0, 1.5) if ctx.quick else rng.uniform(1.0, 2.0)
     zs = zs_b * bn
     gamma0 = Kb2 / (4 * np.pi ** 2 * zs)
     # same object, energies rescaled to gamma0
@@ -648,7 +648,7 @@ def halfwidth_case(ctx, am, i):
     pn, info = build_pn(ctx, am, P2, i, with_settings=False, table=gamma0 * unit_table, grid=(n1, n2))
     div = rng.uniform(10.5, 14.0)
     dx = bn / div
-    Xf = [8, 12, 16][i % 3]
+    Xf = ([8, 12, 16] if ctx.quick else [12, 20, 32])[i % 3]      # half window / zeta*
     N = int(2 * Xf * zs / dx) | 1
     X = dx * (N - 1) / 2
     zw = O.window_halfwidth(X, Kb2, gamma0)
@@ -753,6 +753,7 @@ def run(ctx):
     rec.count('reach:GammaSurface.conversions', cover.hits(GS_FILE, 367, 608))
     rec.count('reach:SDVPN.terms', cover.hits(PN_FILE, 500, 837))
     rec.count('reach:SDVPN.solve', cover.hits(PN_FILE, 403, 464))
+    # reach counters are summed over the (>= 8) worker shards: the floors ask for ~85 % of the lines 8 shards execute
     declare_floors(rec, ctx)
 
 
@@ -806,9 +807,9 @@ def declare_floors(rec, ctx):
     f('halfwidth:scans', 6)
     f('halfwidth:grid-finer-than-b/10', 6)
     f('arctan', 40)
-    f('reach:GammaSurface.fit', 15)
-    f('reach:GammaSurface.E_gsf', 40)
-    f('reach:GammaSurface.delta', 20)
-    f('reach:GammaSurface.conversions', 40)
-    f('reach:SDVPN.terms', 60)
-    f('reach:SDVPN.solve', 25)
+    f('reach:GammaSurface.fit', 130)
+    f('reach:GammaSurface.E_gsf', 380)
+    f('reach:GammaSurface.delta', 230)
+    f('reach:GammaSurface.conversions', 320)
+    f('reach:SDVPN.terms', 580)
+    f('reach:SDVPN.solve', 260)
